@@ -23,7 +23,8 @@ pub type Result<T> = std::result::Result<T, EvaluationError>;
 #[verifier::external_body] pub struct UnlinkedSlotError { _p: u8 }
 #[verifier::external_body] pub struct ExtensionFunctionExecutionError { _p: u8 }
 #[verifier::external_body] pub struct NonValueError { _p: u8 }
-#[verifier::external_body] pub struct ASTErrorExprError { _p: u8 }
+pub struct ASTErrorExprError { pub source_loc: Option<Loc> }
+pub use EvaluationError::ASTErrorExpr;
 #[verifier::external_body] pub struct RecursionLimitError { _p: u8 }
 
 // thiserror `#[from]` conversions, as declared on the enum (assumed)
@@ -53,11 +54,10 @@ impl From<i64> for Value { #[verifier::external_body] fn from(v: i64) -> (r: Val
 impl Value {
     #[verifier::external_body] pub fn value_kind(&self) -> (r: &ValueKind) ensures *r == self.value { unimplemented!() }
 }
-/// the dynamic type names used in type errors (ast::Type); only constructed and passed on
-pub enum Type { Bool, Long, String, Set, Record, Entity { ty: EntityType }, Extension { name: Name } }
 impl Type {
     #[verifier::external_body] pub fn entity_type(name: Name) -> (r: Type) { unimplemented!() }
 }
+impl Clone for EntityType { #[verifier::external_body] fn clone(&self) -> (r: Self) ensures r == *self { unimplemented!() } }
 impl EvaluationError {
     /// assumed: builds a TypeError (evaluator/err.rs: `evaluation_errors::TypeError { .. }.into()`)
     #[verifier::external_body] pub fn type_error_single(expected: Type, actual: &Value) -> (r: EvaluationError) ensures r is TypeError { unimplemented!() }
